@@ -283,7 +283,7 @@ func TestC09Concurrent(t *testing.T) {
 			}
 		}
 	}
-	h.RapidSetup(h.N(6, 60), "c09")
+	h.RapidSetup(h.N(6, 160), "c09")
 	rapid.Check(t, func(rt *rapid.T) {
 		var w workload
 		n := rapid.IntRange(4, 12).Draw(rt, "ntrees")
